@@ -7,6 +7,8 @@ import (
 	"sort"
 	"strings"
 	"sync"
+	"testing"
+	"testing/synctest"
 
 	"github.com/orda-io/orda/client/pkg/model"
 	"github.com/orda-io/orda/client/pkg/verifrt"
@@ -90,7 +92,106 @@ func init() {
 	schedScenarios["e2"] = func(args json.RawMessage) schedScenario {
 		var sa e2SchedArgs
 		json.Unmarshal(args, &sa)
-		return schedScenario{name: "e2", build: func(x *schedExec) ([]activity, func() *pt.Violation, func() *pt.Violation, func()) {
+		has0 := func(list []string, s string) bool {
+			for _, e := range list {
+				if e == s {
+					return true
+				}
+			}
+			return false
+		}
+		// "serial": what the same requests answer and store when made one at a time, in every order (computed once)
+		// (per datatype key: the lock that serializes is per key, a message of several packs is not one atomic request)
+		type serialOutcome struct {
+			order []int
+			byKey map[string]string // key -> answers of every client for that key + stored datatype document and operations
+		}
+		var serial []serialOutcome
+		outcomeByKey := func(m *e2Machine) map[string]string {
+			res := map[string]string{}
+			keys := map[string]bool{"": true}
+			for _, k := range m.p.Keys {
+				keys[k] = true
+			}
+			for k := range keys {
+				var sb strings.Builder
+				for _, c := range m.cls {
+					fmt.Fprintf(&sb, "%s:", c.h.Name)
+					for _, a := range c.h.Stub.Answers {
+						if v, ok := a[k]; ok {
+							fmt.Fprintf(&sb, " %s ;", v)
+						}
+					}
+					sb.WriteString("\n")
+				}
+				if k != "" {
+					for _, dt := range m.readStore() {
+						if dt.key != k {
+							continue
+						}
+						cl := make([]string, 0, len(dt.clients))
+						for cu, cp := range dt.clients {
+							cl = append(cl, fmt.Sprintf("%s=%d:%d", cu, cp[0], cp[1]))
+						}
+						sort.Strings(cl)
+						fmt.Fprintf(&sb, "stored %s/%d %s %s end=%d clients=%v ops=", dt.key, dt.colNum, dt.duid, dt.typ, dt.end, cl)
+						for _, op := range dt.ops {
+							fmt.Fprintf(&sb, "(%d %s:%d %s %s)", op.sseq, op.cuid, op.seq, op.typ, op.body)
+						}
+						sb.WriteString("\n")
+					}
+				}
+				res[k] = sb.String()
+			}
+			return res
+		}
+		var prepare func(t *testing.T)
+		if has0(sa.AtEnd, "serial") {
+			prepare = func(t *testing.T) {
+				if serial != nil {
+					return
+				}
+				var perms [][]int
+				var rec func(cur []int, used []bool)
+				rec = func(cur []int, used []bool) {
+					if len(cur) == len(sa.Conc) {
+						perms = append(perms, append([]int{}, cur...))
+						return
+					}
+					for i := range sa.Conc {
+						if !used[i] {
+							used[i] = true
+							rec(append(cur, i), used)
+							used[i] = false
+						}
+					}
+				}
+				rec(nil, make([]bool, len(sa.Conc)))
+				for _, perm := range perms {
+					perm := perm
+					synctest.Test(t, func(t *testing.T) {
+						resetUIDs()
+						pp, _ := json.Marshal(sa.E2)
+						m := newE2(pp)
+						defer m.Shutdown()
+						var errs []string
+						var mu sync.Mutex
+						for _, a := range sa.Setup {
+							safeApply(m, a)
+						}
+						for _, c := range m.cls {
+							c.h.Stub.Answers = nil
+						}
+						for _, i := range perm {
+							m.rawRequest(sa.Conc[i], &errs, &mu)
+							m.drain()
+						}
+						serial = append(serial, serialOutcome{order: perm, byKey: outcomeByKey(m)})
+					})
+				}
+			}
+		}
+		return schedScenario{name: "e2", prepare: prepare, build: func(x *schedExec) ([]activity, func() *pt.Violation, func() *pt.Violation, func()) {
 			pp, _ := json.Marshal(sa.E2)
 			m := newE2(pp)
 			x.sched = m.sys.Sched
@@ -132,6 +233,9 @@ func init() {
 				if setupViol == nil {
 					setupViol = safeApply(m, a)
 				}
+			}
+			for _, c := range m.cls {
+				c.h.Stub.Answers = nil
 			}
 			if sa.E2.SyncType == "realtime" {
 				m.sys.Broker.Auto = true
@@ -178,6 +282,40 @@ func init() {
 			atEnd := func() *pt.Violation {
 				for _, o := range sa.AtEnd {
 					m.oracles[o] = true
+				}
+				if has(sa.AtEnd, "serial") && len(serial) > 0 {
+					// before any closing sync: answers and stored log state equal those of SOME one-at-a-time order. Not judged
+					// when a lock lease ran out or a caller gave up (a request refused for waiting too long, or abandoned, has
+					// no counterpart in a one-at-a-time execution).
+					judged := true
+					for _, tr := range x.trace {
+						if strings.HasPrefix(tr, "~env:") {
+							judged = false
+						}
+					}
+					if judged {
+						got := outcomeByKey(m)
+						gk := make([]string, 0, len(got))
+						for k := range got {
+							gk = append(gk, k)
+						}
+						sort.Strings(gk)
+						for _, k := range gk {
+							match := false
+							for _, so := range serial {
+								if so.byKey[k] == got[k] {
+									match = true
+								}
+							}
+							if !match {
+								var sb strings.Builder
+								for _, so := range serial {
+									fmt.Fprintf(&sb, "--- order %v:\n%s", so.order, so.byKey[k])
+								}
+								return viol("C12:not-equal-to-any-serial-order", "for key %q the concurrent requests were answered, and the datatype stored, as\n%swhich equals none of the %d one-at-a-time orders:\n%s schedule %v", k, got[k], len(serial), clip(sb.String(), 3000), x.trace)
+							}
+						}
+					}
 				}
 				if has(sa.AtEnd, "quiescent") {
 					// realtime: the clients must already agree, without any Sync call of the harness
